@@ -74,6 +74,26 @@ def _improve_z(ev):
     return sigma * x0 + mu
 
 
+def _sto_verdict(ev, pmm=2.0):
+    """independent recomputation of the stochastic-MADS verdict (Audet et al. 2021, as adopted by the code):
+    1 success, 0 uncertain, -1 certain failure; None when the logged arguments are unusable.  The frame size
+    must be the current poll mesh size."""
+    try:
+        fb = float(np.asarray(ev["f_base"], dtype=float).ravel()[0])
+        fn = float(np.asarray(ev["f_new"], dtype=float).ravel()[0])
+        sb = float(np.asarray(ev["s_base"], dtype=float).ravel()[0])
+        sn = float(np.asarray(ev["s_new"], dtype=float).ravel()[0])
+        frame = float(pmm) ** int(ev["k"])
+        gamma = 1.96 if ev["gamma"] is None else float(ev["gamma"])
+        ub = gamma * math.sqrt(sb * sb + sn * sn) * frame ** float(ev["power"])
+        mu = fb - fn
+        if not (math.isfinite(mu) and math.isfinite(ub)):
+            return None
+        return 1 if mu >= ub else (-1 if mu <= -ub else 0)
+    except Exception:
+        return None
+
+
 def project(events, run_index=0):
     """Return (list of projected events, info dict)."""
     out = []
@@ -247,6 +267,10 @@ def project(events, run_index=0):
     tol_fun = float(opts.get("tol_fun", 1e-3))
     sloppy = bool(opts.get("sloppy_improvement", True))
     tol_noise = float(opts.get("tol_noise", 0.0))
+    # stochastic-MADS success rule: replaces the forcing-function test in noisy runs (the code switches it off for
+    # deterministic targets); opportunistic variant moves the incumbent unless the verdict is a certain failure
+    stobads = bool(opts.get("stobads")) and mode != "det"
+    opp = bool(opts.get("opp_stobads", True))
 
     # ---------------- pass 2: emit ----------------------------------------
     n_init_evals = 0
@@ -377,6 +401,9 @@ def project(events, run_index=0):
                 cur_step["improves"].append(e)
             elif e["site"] in ("top", "final"):
                 pending_improve.append((idx, e))
+        elif t == "StoSuccess":
+            if cur_step is not None and e["site"] in ("search", "poll"):
+                cur_step.setdefault("stos", []).append(e)
         elif t == "SearchEnd":
             st = cur_step
             cur_step = None
@@ -386,6 +413,11 @@ def project(events, run_index=0):
             nev = len(st["evals"])
             imp_pos = bool(z is not None and np.all(np.asarray(z) > 0))
             imp_suff = bool(z is not None and np.all(np.asarray(z) > thr))
+            if stobads:
+                stos = st.get("stos", [])
+                sv = _sto_verdict(stos[-1], pmm) if stos else None
+                imp_suff = bool(sv == 1)
+                imp_pos = bool(sv is not None and (sv > -1 if opp else sv == 1))
             # det: the compared value must be the observation just made
             fnew_obs = True
             if imps and nev and mode == "det":
@@ -438,6 +470,14 @@ def project(events, run_index=0):
             zs = [float(np.asarray(_improve_z(im)).ravel()[0]) for im in paired if _improve_z(im) is not None]
             good = bool(zs and max(zs) > thr)
             moved = bool(zs and ((max(zs) > 0 and sloppy) or max(zs) > thr))
+            if stobads:
+                # the verdict on the LAST polled point classifies the poll; the incumbent moves to the best polled
+                # point (if any improves on the incumbent's estimate) on success or, opportunistically, unless the
+                # verdict is a certain failure
+                stos = [x for x in st.get("stos", []) if evs and x["seq"] > evs[-1][0]["seq"]]
+                sv = _sto_verdict(stos[0], pmm) if stos else (0 if not evs else None)
+                good = bool(sv == 1)
+                moved = bool(sv is not None and (good or (opp and sv > -1)) and zs and max(zs) > 0)
             stalled = False
             if stall_ev is not None:
                 zz = _improve_z(stall_ev)
